@@ -217,6 +217,86 @@ def check_text(report, scen, rec):
         report.count("sql_text_checked_pg" if pg else "sql_text_checked_sqlite")
 
 
+# ---- NIP-01 over the filter AS THE CLIENT SENT IT -------------------------------------------------
+#
+# The reference answers of lib/qscen are computed from the NostrQuery object that the relay's own validation returns: a
+# validation that rewrites a filter (folds, trims, normalises a value) would move the reference along with the implementation.
+# The property speaks about the filter of the REQ, so for filters whose JSON has one unambiguous NIP-01 reading (`raw_plain`) the
+# answer is also judged against the JSON itself: strings are compared code point for code point (Python's `==` on str), nothing else.
+
+_HEX64 = re.compile(r"\A[0-9a-f]{64}\Z")
+_RAW_KEYS = {"ids", "authors", "kinds", "since", "until", "limit"}
+
+
+def _is_int(x):
+    return isinstance(x, int) and not isinstance(x, bool)
+
+
+def raw_plain(f):
+    """the filter JSON has exactly one reading: known keys only, ids / authors of 64 lower-case hex digits (the relay may lower-case
+    hex and treats longer strings in its own way: those filters are left to the reference over the validated query), integer
+    kinds / bounds, tag conditions that are lists of strings under a one-character name"""
+    if not isinstance(f, dict):
+        return False
+    for k, v in f.items():
+        if k in ("ids", "authors"):
+            if not isinstance(v, list) or not all(isinstance(x, str) and _HEX64.match(x) for x in v):
+                return False
+        elif k == "kinds":
+            if not isinstance(v, list) or not all(_is_int(x) for x in v):
+                return False
+        elif k in ("since", "until", "limit"):
+            if not _is_int(v) or v < 0:
+                return False
+        elif isinstance(k, str) and k.startswith("#") and len(k) == 2:
+            if not isinstance(v, list) or not all(isinstance(x, str) for x in v):
+                return False
+        else:
+            return False
+    return True
+
+
+def raw_matches(f, ev):
+    """NIP-01, inclusive reading (bounds inclusive, a delegator counts as an author), of one raw filter on one event dict"""
+    if "ids" in f and ev["id"] not in f["ids"]:
+        return False
+    if "authors" in f:
+        if ev["pubkey"] not in f["authors"] and not any(
+                isinstance(t, (list, tuple)) and len(t) > 1 and t[0] == "delegation" and t[1] in f["authors"] for t in ev["tags"]):
+            return False
+    if "kinds" in f and not any(_is_int(ev["kind"]) and ev["kind"] == k for k in f["kinds"]):
+        return False
+    if "since" in f and not ev["created_at"] >= f["since"]:
+        return False
+    if "until" in f and not ev["created_at"] <= f["until"]:
+        return False
+    for k, wanted in f.items():
+        if k.startswith("#"):
+            if not any(isinstance(t, (list, tuple)) and len(t) > 1 and t[0] == k[1] and isinstance(t[1], str) and t[1] in wanted
+                       for t in ev["tags"]):
+                return False
+    return True
+
+
+class _Ascii:
+    """%r of a value with every non-ASCII character escaped: look-alike strings must be told apart in a message"""
+    def __init__(self, v):
+        self.v = v
+
+    def __repr__(self):
+        return ascii(self.v)
+
+
+def _events_by_id(events):
+    out = {}
+    for e in events:
+        try:
+            out.setdefault(bytes.fromhex(e["id"]).hex(), e)
+        except (ValueError, TypeError):
+            pass
+    return out
+
+
 def oracle(report, rec):
     if rec is None or rec["ids"] is None:
         return
@@ -226,6 +306,17 @@ def oracle(report, rec):
         report.property_failure(
             "%s backend returned %d event(s) that are not stored or match no filter of %r" % (rec["backend"], len(bad), rec["filters"]),
             qscen.replay_payload(rec), cls)
+    if all(raw_plain(f) for f in rec["filters"]):
+        report.count("answers_judged_against_raw_filter_json")
+        by_id = _events_by_id(rec["events"])
+        odd = [i for i in rec["ids"] if i in by_id and _is_int(by_id[i].get("created_at"))
+               and not any(raw_matches(f, by_id[i]) for f in rec["filters"])]
+        if odd:
+            cls = None
+            report.property_failure(
+                "%s backend answered the REQ %r with %d event(s) that match none of its filters as the client sent them "
+                "(strings compared code point for code point), e.g. one with tags %r"
+                % (rec["backend"], _Ascii(rec["filters"]), len(odd), _Ascii(by_id[odd[0]]["tags"])), qscen.replay_payload(rec), cls)
 
 
 def run_case(report, scen, rng, adversarial):
@@ -305,6 +396,193 @@ def long_value_family(report, scen, rng):
         report.count("long_value_family_filters")
 
 
+# ---- look-alike strings: equivalent for some reader, different as strings ----------------------------------------------------
+#
+# A tag value in a filter matches only the identical code-point string.  Every text-handling layer offers a "helpful" equivalence
+# that is coarser than identity — Unicode normal forms (canonical and compatibility), case mappings, width, invisible and
+# trailing characters, accent stripping, transport escapings, numeric reading — and a backend (or the shared validation in front
+# of both) that applies one of them to one side only answers with events that carry a *different* string.  The classes are not a
+# list of known bad pairs: they are generated by applying every such mapping (and every such mapping of a normal form) to seed
+# strings, some hand-picked because they are sensitive to several mappings at once, some drawn by the rng from the code points that have a
+# decomposition mapping in the Unicode data of the running Python.
+
+def _fullwidth(s):
+    return "".join(chr(ord(c) + 0xFEE0) if 0x21 <= ord(c) <= 0x7E else "\u3000" if c == " " else c for c in s)
+
+
+def _strip_marks(s):
+    import unicodedata
+    return "".join(c for c in unicodedata.normalize("NFD", s) if not unicodedata.combining(c))
+
+
+def _mid(s, ins):
+    k = max(1, len(s) // 2)
+    return s[:k] + ins + s[k:]
+
+
+def _arabic_digits(s):
+    return "".join(chr(0x0660 + ord(c) - 0x30) if "0" <= c <= "9" else c for c in s)
+
+
+def _lookalike_maps():
+    import html
+    import unicodedata
+    import urllib.parse
+
+    nf = lambda form: (lambda s: unicodedata.normalize(form, s))
+    return [
+        ("nfc", nf("NFC")), ("nfd", nf("NFD")), ("nfkc", nf("NFKC")), ("nfkd", nf("NFKD")),
+        ("lower", str.lower), ("upper", str.upper), ("casefold", str.casefold), ("title", str.title), ("swapcase", str.swapcase),
+        ("fullwidth", _fullwidth), ("strip_marks", _strip_marks),
+        ("trail_space", lambda s: s + " "), ("lead_space", lambda s: " " + s), ("trail_nul", lambda s: s + "\x00"),
+        ("trail_newline", lambda s: s + "\n"), ("trail_tab", lambda s: s + "\t"), ("trail_nbsp", lambda s: s + "\u00a0"),
+        ("lead_bom", lambda s: "\ufeff" + s), ("trail_bom", lambda s: s + "\ufeff"), ("trail_zwsp", lambda s: s + "\u200b"),
+        ("zwj", lambda s: _mid(s, "\u200d")), ("zwnj", lambda s: _mid(s, "\u200c")), ("soft_hyphen", lambda s: _mid(s, "\u00ad")),
+        ("word_joiner", lambda s: _mid(s, "\u2060")), ("variation_selector", lambda s: s + "\ufe0f"),
+        ("url_quote", lambda s: urllib.parse.quote(s, safe="")), ("url_quote_plus", urllib.parse.quote_plus),
+        ("url_unquote", urllib.parse.unquote), ("html_escape", html.escape), ("html_unescape", html.unescape),
+        ("arabic_digits", _arabic_digits), ("zero_pad", lambda s: "0" + s if s.isdigit() else s),
+        ("as_float", lambda s: s + ".0" if s.isdigit() else s), ("plus_sign", lambda s: "+" + s if s.isdigit() else s),
+    ]
+
+
+LOOKALIKE_SEEDS = [
+    "caf\u00e9",                    # \u00e9 as one code point (NFD: e + U+0301)
+    "\u212bngstr\u00f6m",           # ANGSTROM SIGN: a singleton, its NFC is U+00C5
+    "\ud55c\uae00",                 # Hangul syllables (NFD: conjoining jamo)
+    "\ufb01n \u2460",               # fi ligature, circled digit: compatibility mappings only
+    "Stra\u00dfe",                  # \u00df: upper SS, casefold ss
+    "\u0130stanbul I\u0131",        # dotted / dotless i
+    "\u039f\u0394\u03a5\u03a3\u03a3\u0395\u038e\u03a3",  # final sigma under lower(), accents under strip
+    "\uff11\uff12\uff13",           # full-width digits
+    "Tag",
+    "a&b c%41",                     # transport escapings
+    "17",
+    "\uff76\uff9e",                 # half-width katakana + voiced sound mark (NFKC composes to one full-width letter)
+    "q\u0307\u0323",                # two combining marks in non-canonical order
+    "\u0344\u2126\u212a",           # singletons / deprecated forms: dialytika tonos, OHM SIGN, KELVIN SIGN
+    "\u1e9b\u0323",                 # the classic normalisation test character: four different normal forms
+]
+
+# tag names that are such characters themselves: a filter key "#x" has a one-code-point name, so the classes are those whose
+# members are single code points (singletons, case pairs, width pairs) plus invisible characters as names
+LOOKALIKE_NAME_CLASSES = [
+    ["t", "T", "\uff54"], ["\u212b", "\u00c5", "\u00e5"], ["\u212a", "K", "k"], ["\u2126", "\u03a9", "\u03c9"], ["\u00e9", "e", "\u00c9"],
+    ["\u00df", "\u1e9e"], ["\u0130", "i", "I", "\u0131"], ["\ufb01"], ["\u03c3", "\u03c2", "\u03a3"], ["\u200d"], ["\ufeff"], [" ", "\u00a0"],
+    ["1", "\uff11", "\u0661"], ["d"], ["e"],
+]
+
+_DECOMPOSABLE = None
+
+
+def _decomposable():
+    """the BMP code points that a normal form changes (canonical or compatibility decomposition, Hangul syllables included) in this
+    Python's Unicode data"""
+    global _DECOMPOSABLE
+    if _DECOMPOSABLE is None:
+        import unicodedata
+        _DECOMPOSABLE = [chr(cp) for cp in range(0xA0, 0x10000)
+                         if not 0xD800 <= cp <= 0xDFFF and unicodedata.normalize("NFKD", chr(cp)) != chr(cp)]
+    return _DECOMPOSABLE
+
+
+def lookalike_class(rng, seed_string, extra):
+    """[(how, member)]: the seed, every mapping of it, and `extra` members that are a mapping of a normal form of it (None: all)"""
+    import unicodedata
+
+    maps = _lookalike_maps()
+    members = {seed_string: "seed"}
+    for how, fn in maps:
+        members.setdefault(fn(seed_string), how)
+    second = {}
+    for form in ("NFC", "NFD", "NFKC", "NFKD"):
+        base = unicodedata.normalize(form, seed_string)
+        for how, fn in maps:
+            v = fn(base)
+            if v not in members:
+                second.setdefault(v, how + "(" + form.lower() + ")")
+    keys = sorted(second)
+    if extra is not None and len(keys) > extra:
+        keys = rng.sample(keys, extra)
+    for v in keys:
+        members[v] = second[v]
+    return sorted(((how, v) for v, how in members.items() if v), key=lambda p: p[1])
+
+
+def lookalike_family(report, scen, rng, seed_string, tier):
+    """one member of the class per event (under every name of a class of look-alike tag names), every member asked for under every
+    name on both backends, alone and inside the usual conjunctions: an answer may hold only the events whose tag IS the requested
+    string under the requested name"""
+    from lib import gen
+
+    cls = lookalike_class(rng, seed_string, 4 if tier == "quick" else None)
+    names = list(rng.choice(LOOKALIKE_NAME_CLASSES))
+    vals = [v for _, v in cls]
+    evs = []
+    for name in names:
+        for how, v in cls:
+            tags = [[name, v], ["g", "all"]]
+            if rng.random() < 0.25:
+                # a second tag of the same name holding another member: reached through one value, matched on the other
+                tags.insert(rng.randrange(2), [name, rng.choice(vals)])
+            evs.append({"id": gen.mkid(rng), "pubkey": rng.choice(gen.AUTHORS[:3]), "created_at": gen.T0 + len(evs),
+                        "kind": rng.choice([1, 1, 7]), "tags": tags, "content": "", "sig": "00" * 64})
+    while len({e["id"] for e in evs}) != len(evs):
+        seen = set()
+        for e in evs:
+            if e["id"] in seen:
+                e["id"] = gen.mkid(rng)
+            seen.add(e["id"])
+    scen.load(evs)
+    ids = [e["id"] for e in evs]
+    by_id = {e["id"]: e for e in evs}
+
+    def judge(rec, how):
+        if rec is None or rec["ids"] is None:
+            report.count("lookalike_filters_refused")
+            return
+        oracle(report, rec)
+        exact = [i for i in rec["ids"] if i in by_id and any(raw_matches(f, by_id[i]) for f in rec["filters"])]
+        report.case((rec["backend"], "lookalike", repr(rec["filters"])), nontrivial=len(exact) > 0,
+                    sample={"backend": rec["backend"], "lookalike": how, "filters": rec["filters"], "returned": len(rec["ids"]),
+                            "class_size": len(cls), "names": names})
+        report.count("lookalike_answers_" + rec["backend"])
+        if not exact:
+            report.count("lookalike_answers_without_the_exact_member")
+            # (completeness is C02's subject; at the time of writing these are exactly the SQL REQs with a NUL in a filter value,
+            # which SQLite's statement text cannot carry: the whole REQ is answered with nothing)
+
+    for name in names:
+        for how, v in cls:
+            key = "#" + name
+            plain = {key: [v]}
+            r = rng.random()
+            other = rng.choice(vals)
+            extra = ({key: [v], "kinds": [1, 7]} if r < 0.2 else {"ids": list(ids), key: [v]} if r < 0.4 else
+                     {key: [v], "authors": gen.AUTHORS[:3]} if r < 0.55 else {key: [v], "#g": ["all"]} if r < 0.7 else
+                     {key: [v, other]} if r < 0.85 else {key: [v], "since": gen.T0, "limit": 3})
+            for f in (plain, extra):
+                judge(scen.ask_kv(dict(f)), how)
+                judge(scen.ask_sql([dict(f)]), how)
+            report.count("lookalike_" + how.split("(")[0])
+        # one REQ of two filters on SQL: members under this name and under another name of the class
+        f2 = [{"#" + name: [rng.choice(vals)]}, {"#" + rng.choice(names): [rng.choice(vals)], "kinds": [7]}]
+        judge(scen.ask_sql([dict(f) for f in f2]), "two filters")
+    report.count("lookalike_classes")
+    report.count("lookalike_events", len(evs))
+
+
+def lookalike_seeds(rng, tier):
+    """the hand-picked seeds, and seeds of 1-3 code points drawn from those that have a decomposition mapping (next to an ASCII
+    letter, so that case and width mappings bite as well)"""
+    out = list(LOOKALIKE_SEEDS)
+    pool = _decomposable()
+    for _ in range(3 if tier == "quick" else 60):
+        s = "".join(rng.choice(pool) for _ in range(rng.choice([1, 2, 3])))
+        out.append(rng.choice(["", "a", "Z"]) + s)
+    return out
+
+
 def replay_one(report, scen, r):
     scen.load(r["events"])
     if r["backend"] == "kv":
@@ -325,7 +603,11 @@ def run(report, tier, seed):
         "names/values (quotes, backslashes, bind-shaped ':w', comments, NUL, %, _) x filters built from stored values "
         "and from the adversarial pool, 1-2 filters per REQ on SQL; every returned id must be stored and match the "
         "NIP-01 spec; SQL text (sqlite and postgres branch, after SQLAlchemy text()) must have the token skeleton of "
-        "its shape twin; non-trivial = the answer is non-empty")
+        "its shape twin; non-trivial = the answer is non-empty; "
+        "look-alike classes: a seed string and its images under Unicode normal forms, case mappings, width, invisible / "
+        "trailing characters, accent stripping, escapings and numeric spellings, one member per stored event under each of a "
+        "class of look-alike one-character tag names, every member asked for on both backends; every answer to a filter "
+        "whose JSON has one reading is also judged against that JSON (code-point equality), not only against the validated query")
     report.assumptions += [
         "PostgreSQL is not available: its branch is covered at the level of generated SQL text only",
         "full-text `search` filters (whoosh) are not modelled",
@@ -342,6 +624,8 @@ def run(report, tier, seed):
             substring_family(report, scen, rng)
         for i in range(2 if tier == "quick" else 30):
             long_value_family(report, scen, rng)
+        for s in lookalike_seeds(rng, tier):
+            lookalike_family(report, scen, rng, s, tier)
     finally:
         scen.close()
         drv.close()
